@@ -3,7 +3,21 @@
 
 package index
 
-import "github.com/RoaringBitmap/roaring"
+import (
+	"github.com/RoaringBitmap/roaring"
+	segment "github.com/blugelabs/bluge_segment_api"
+)
+
+// verifStubSegment stands in for a loaded segment in snapshots built by
+// VerifNewSnapshot: only Type and Version (what WriteTo records) are usable.
+type verifStubSegment struct {
+	segment.Segment
+	typ string
+	ver uint32
+}
+
+func (s verifStubSegment) Type() string    { return s.typ }
+func (s verifStubSegment) Version() uint32 { return s.ver }
 
 // VerifSegmentInfo is the persisted description of one segment of a snapshot
 // (verification hook, only built with -tags verif).
@@ -24,6 +38,10 @@ func VerifNewSnapshot(epoch uint64, segs []VerifSegmentInfo) *Snapshot {
 			segmentType:    s.Type,
 			segmentVersion: s.Version,
 			deleted:        s.Deleted,
+			segment: &segmentWrapper{
+				Segment:    verifStubSegment{typ: s.Type, ver: s.Version},
+				refCounter: noOpRefCounter{},
+			},
 		})
 	}
 	return rv
